@@ -301,6 +301,8 @@ func (pr *Program) replayAPI(prop string, o *Obl, input []byte) (bool, string) {
 		"C19": "&#xX;0aF",
 		"C16": "'\"-#/*$@. 1e",
 		"C01": "'\"-#/*$@. 1e\\`",
+		"C10": "nNxXeEqQuUbB'\" 1.;-",
+		"C11": "<>=\"' /scriptONxXjJ",
 	}[prop]
 	extra = strings.ReplaceAll(extra, "report(fmt.Sprintf(", "report2(fmt.Sprintf(")
 	extra = "	report2 := func(what, r string) { report(what, input, r) }\n	_ = report2\n" + extra
